@@ -55,3 +55,7 @@ func (c *vRecConn) Write(p []byte) (int, error) {
 }
 func (c *vRecConn) Close() error { c.closed++; return nil }
 
+
+type vBufW struct{ b []byte }
+
+func (w *vBufW) Write(p []byte) (int, error) { w.b = append(w.b, p...); return len(p), nil }
